@@ -153,7 +153,7 @@ theorem sim_ok : ∀ (n : Nat) (T : DTask) (loc : Env) (d : DSt) (o : List Event
       | call f args =>
         simp only [doc, bind_ok] at h
         obtain ⟨fv, hfv, vs, hvs, dm, hdm, scope, hsc, h2⟩ := h
-        rw [look_sim hl hg.glob] at hfv hvs
+        rw [look_sim hl hg.glob] at hfv hvs hsc
         obtain ⟨m, hm, ms⟩ := getMacro_sim hg hdm
         obtain ⟨hp, hdw, hd1, hd2⟩ := ms
         have hg' : SimG d (st.push scope) := hg.of_same rfl rfl rfl
